@@ -1,4 +1,5 @@
 import Proofs.XsdScript
+import Proofs.XsdText
 
 /-!
   C20 — XSD generation mirrors the component's classes and data types.
@@ -199,6 +200,39 @@ theorem xml_wellformed_tree (d : ClassDiagram) (comp : Nat) :
     WellFormed (fun v => v ∈ (xsdSpec d comp).strings) (xsd d comp) :=
   render_wellFormed (xsdSpec d comp)
 
+/-! ### the written text: escaping is sound -/
+
+/-- whatever characters a model name contains (`& < > "`, look-alikes of references such as `&amp;`, `]]>`,
+    non-ASCII letters; control characters are outside the domain), the attribute value written for it by
+    `toprettyxml` (a) contains no `<`, `>` or `"` — it cannot end its quotes or open a tag — and (b) reads back,
+    references expanded, to exactly the name -/
+theorem xml_escape_sound (s : List Char) :
+    (∀ c ∈ escAttr s, c ≠ '<' ∧ c ≠ '>' ∧ c ≠ '\x22') ∧ unescAttr (escAttr s) = s :=
+  ⟨escAttr_no_delims s, unesc_esc s⟩
+
+/-- every element of the written file is `indent <tag`, its attribute list, then `/>` or `>`; reading the
+    attribute list back (key up to `=`, value between the quotes, references expanded) returns the attributes of
+    the tree, i.e. the model names, and stops exactly at the end of the start tag -/
+theorem xml_start_tag_reads_back (indent : List Char) (tag : String) (attrs : List (String × String))
+    (children : List XmlTree) (hkeys : ∀ p ∈ attrs, '=' ∉ p.1.toList) :
+    ∃ tail, nodeText indent (.node tag attrs children) = indent ++ '<' :: tag.toList ++ (attrsText attrs ++ tail) ∧
+      (tail.head? = some '/' ∨ tail.head? = some '>') ∧
+      readAttrs attrs.length (attrsText attrs ++ tail) = some (attrs.map (fun p => (p.1.toList, p.2.toList)), tail) := by
+  cases children with
+  | nil =>
+    refine ⟨"/>\n".toList, ?_, Or.inl rfl, ?_⟩
+    · simp [nodeText, List.append_assoc]
+    · exact readAttrs_attrsText attrs _ _ hkeys (by decide) (Nat.le_refl _)
+  | cons c cs =>
+    refine ⟨">\n".toList ++ nodesText ("    ".toList ++ indent) (c :: cs) ++ indent ++ '<' :: '/' :: tag.toList ++ ">\n".toList,
+      ?_, Or.inr rfl, ?_⟩
+    · simp [nodeText, List.append_assoc]
+    · exact readAttrs_attrsText attrs _ _ hkeys (by simp) (Nat.le_refl _)
+
+/-- the attribute keys of the generator's vocabulary contain no `=` (so the theorem above applies to every
+    element of every generated schema, see `xml_wellformed_tree`) -/
+theorem xml_keys_plain : ∀ k ∈ keyVocab, '=' ∉ k.toList := by decide
+
 /-- `main -c NAME`: an unknown component name produces no tree (exit status 1) -/
 theorem xsd_unknown_component (d : ClassDiagram) (name : String)
     (h : d.containers.find? (fun k => k.isComp && k.name == name) = none) : xsdByName d name = none := by
@@ -266,5 +300,14 @@ example : XEditOk d1 (.addType ⟨60, "Shade", .user 50, .pkg 5⟩) := by
 
 example : (xsdSpec (applyXEdit (.addType ⟨60, "Shade", .user 50, .pkg 5⟩) d1) 6).types.getLast? =
     some (.restriction "Shade" "Color") := by decide
+
+/-- names with XML-special characters survive the file: `a&b<c>"d` is written `a&amp;b&lt;c&gt;&quot;d` -/
+example : escAttr "a&b<c>\"d".toList = "a&amp;b&lt;c&gt;&quot;d".toList ∧
+    unescAttr "a&amp;b&lt;c&gt;&quot;d".toList = "a&b<c>\"d".toList ∧
+    escAttr "&amp;".toList = "&amp;amp;".toList := by decide
+
+/-- one element per line, four blanks per level, `/>` for an element without children -/
+example : nodeText [] (.node "a" [("k", "x&y"), ("m", "")] [.node "b" [("v", "<")] []]) =
+    "<a k=\"x&amp;y\" m=\"\">\n    <b v=\"&lt;\"/>\n</a>\n".toList := by decide
 
 end PyxProps.C20
